@@ -93,7 +93,7 @@ def unit_findings(ctx, I, fi, inst):
                bad[0].msg if bad else '', 'unit-kind')
 
 
-def run(ctx):
+def check_cf_interpolate(ctx):
     repo = ctx.repo
     U, mJy, au = sym('unit:U'), sym('unit:mJy'), sym('unit:au')
     # ---------------- ConvolvedFluxes.interpolate
@@ -139,6 +139,12 @@ def run(ctx):
         ctx.expect(not gs, 'CFG-7', 'ConvolvedFluxes.interpolate single-aperture table accepts every radius', where_, 'no request is refused when the table has one aperture',
                    'a single-aperture table refuses requests: raise guarded by %s' % (gs[0][2] if gs else ''), 'single-refuses')
 
+
+def run(ctx):
+    repo = ctx.repo
+    check_cf_interpolate(ctx)
+    U, mJy, au = sym('unit:U'), sym('unit:mJy'), sym('unit:au')
+    q, cap = sym('q', D), sym('cap', A)
     # ---------------- SED.interpolate
     fs = ctx.fn(repo.func('sed.sed', 'SED.interpolate'))
     scls = repo.cls('sed.sed', 'SED')
